@@ -259,12 +259,19 @@ static void on_trap(int sig, siginfo_t *si, void *uc_) {
 	uc->uc_mcontext.gregs[REG_EFL] &= ~(greg_t) 0x100;
 	if (watch && w_lo) mprotect(w_lo, w_len, PROT_READ);
 }
+/* the private control flag that makes the packet functions reuse the saved clock sample; if the context has no such
+   member any more the runner is built with -DNO_UC and prints -1 (the model prints the flag: the streams then differ) */
+#ifdef NO_UC
+#define UCVAL (-1)
+#else
+#define UCVAL ((int) CTX->use_cur_last_event_ts)
+#endif
 static void ret(const char *api) {
 	oprintf("ret %%s at=%%u ps=%%u full=%%d empty=%%d disc=%%u seq=%%u open=%%d f=%%d en=%%d bs=%%u uc=%%d\n", api,
 		(unsigned) CTX->at, (unsigned) %(p)spacket_size(CTX), %(p)spacket_is_full(CTX), %(p)spacket_is_empty(CTX),
 		(unsigned) %(p)sdiscarded_event_records_count(CTX), (unsigned) %(p)spacket_sequence_number(CTX),
 		%(p)spacket_is_open(CTX), %(p)sis_in_tracing_section(CTX), %(p)sis_tracing_enabled(CTX),
-		(unsigned) %(p)spacket_buf_size(CTX), (int) CTX->use_cur_last_event_ts);
+		(unsigned) %(p)spacket_buf_size(CTX), UCVAL);
 	if (%(p)spacket_events_discarded(CTX) != %(p)sdiscarded_event_records_count(CTX)) oprintf("accessor-mismatch\n");
 	{ unsigned gi; for (gi = 0; gi < sizeof(P->guard_); gi++) if (P->guard_[gi] != 0x5c) { oprintf("ctx-overrun +%%u\n", gi); P->guard_[gi] = 0x5c; break; } }
 }
@@ -389,6 +396,8 @@ def build_runner(cfg, ir, dst_name, workdir, extra_cflags=(), tag='runner'):
         f.write(src)
     exe = os.path.join(workdir, tag)
     rc, log = common.cc(['gcc', '-O1', '-g', '-std=gnu99', '-w', *extra_cflags, '-o', exe, f'{tag}.c'], cwd=workdir)
+    if rc != 0 and 'use_cur_last_event_ts' in log:
+        rc, log = common.cc(['gcc', '-O1', '-g', '-std=gnu99', '-w', '-DNO_UC', *extra_cflags, '-o', exe, f'{tag}.c'], cwd=workdir)
     if rc != 0:
         return None, log
     return exe, files
